@@ -772,9 +772,25 @@ def strings_part(chk, exes, ures, thorough, sd):
         if name == "ref":
             continue
         st, outl, complete = run_batch(exe, lines)
+        if not complete:
+            # the program died or hung: attribute it to the first case without output, re-run alone
+            done = set()
+            for ln in outl:
+                p = ln.split(" ", 2)
+                if len(p) > 1 and p[0] in ("U", "P", "X", "R", "Q") and p[1].isdigit():
+                    done.add(int(p[1]))
+            cid = next((c for c in sorted(expected) if c not in done), None)
+            if cid is None:
+                raise C.Undecided("string run (%s) ended abnormally (%s) after its last case" % (name, st))
+            st2, outl2, complete2 = run_batch(exe, [lines[cid - 1]], timeout=60)
+            if complete2:
+                raise C.Undecided("string run (%s) ended abnormally (%s) but the case it stopped at runs alone" % (name, st))
+            chk.reject("str-crash:%s" % kinds[cid],
+                       "%s: the compiled program dies (%s) on the string case %s" % (name, st2, keys[cid]),
+                       {"config": name, "case": keys[cid], "stdin_line": lines[cid - 1].strip(), "status": str(st2),
+                        "output": outl2[-5:], "spec": expected[cid]})
+            continue
         mm = compare_strings(expected, outl)
-        if not complete and not mm:
-            raise C.Undecided("string run (%s) ended abnormally (%s) without a mismatch" % (name, st))
         byfield = {}
         for cid in sorted(mm, key=lambda x: keys[x]):
             exp, got = mm[cid]
